@@ -68,7 +68,14 @@ def gen(rng, kind, tier):
         vals = [float(x) for x in vals]
         if n and rng.random() < 0.3:
             vals[int(rng.integers(n))] = float(rng.choice([0.0, 1.0]))
-        return {"values": vals, "dim": int(rng.integers(1, 4))}
+        case = {"values": vals, "dim": int(rng.integers(1, 4))}
+        if n and rng.random() < 0.2:
+            # whole numbers, also handed over as python ints and as integer arrays (radii in pixels, say)
+            # (at most 1000, so that the cube stays inside int32: integer overflow of narrow numpy types is numpy's
+            # arithmetic, not the conversion formulas - an early run with radii up to 2000 in int32 flagged it)
+            case["values"] = [float(x) for x in rng.integers(0, 1001, n)]
+            case["integers"] = True
+        return case
     if kind == "collection":
         dim = int(rng.integers(1, 4))
         classes = ["SphericalDroplet", "DiffuseDroplet"] + {1: [], 2: ["PerturbedDroplet2D"] * 2,
@@ -151,6 +158,10 @@ def run_batch(case, rec):
         forms.append(("0-d array", np.array(float(arr[0]))))
     if arr.size >= 4 and arr.size % 2 == 0:
         forms.append(("2-d array", arr.reshape(2, -1)))
+    if case.get("integers"):
+        forms += [("int64 array", arr.astype(np.int64)), ("int32 array", arr.astype(np.int32)), ("python int", int(arr[0])),
+                  ("numpy int", np.int64(arr[-1]))]
+        rec.count("integer_arguments")
     for fname, x in forms:
         is_arr = isinstance(x, np.ndarray)
         lab = f"{label} form={fname}"
